@@ -113,6 +113,8 @@ def check(run):
     extract()
     drv = X.setup(run, THEOREMS + ['Jug.C12.stop_mechanisms_use_known_hooks'])
     X.loop_correspondence(run, drv)
+    from jugverif import loopcheck
+    loopcheck.stop_injection_family(run, drv, core.rng_for(run.seed, 'c12-loop-stop'), 60 if run.tier == 'quick' else 600)
     rng = core.rng_for(run.seed, 'c12')
     scratch = core.scratch_dir()
     try:
